@@ -205,14 +205,18 @@ func TestMC_C17conv(t *testing.T) {
 		if idx%7 == 0 || idx < 400 {
 			// an unrelated user of the shared byte-slice pool: the zone string handed out above must
 			// not be memory that has been given back to the pool
+			var held [][]byte
 			for _, k := range []int{len(s), 8, 16, 32} {
-				if k > 0 {
+				for r := 0; k > 0 && r < 3; r++ {
 					b := bsPool.Get(k)
 					for i := range b[:cap(b)] {
 						b[:cap(b)][i] = 'x'
 					}
-					bsPool.Put(b)
+					held = append(held, b)
 				}
+			}
+			for _, b := range held {
+				bsPool.Put(b)
 			}
 		}
 		if got := ip6ZoneToInt(s); got != idx {
